@@ -679,6 +679,24 @@ func (ex *Explorer) Run() error {
 	}
 	ex.work = [][]int16{{}}
 	var wg sync.WaitGroup
+	if os.Getenv("GOSYM_PROGRESS") != "" {
+		stopProg := make(chan struct{})
+		defer close(stopProg)
+		go func() {
+			t := time.NewTicker(10 * time.Second)
+			defer t.Stop()
+			for {
+				select {
+				case <-stopProg:
+					return
+				case <-t.C:
+					ex.mu.Lock()
+					fmt.Fprintf(os.Stderr, "progress %s: paths=%d queue=%d active=%d findings=%d\n", cfg.Harness, ex.Stats.Paths, len(ex.work), ex.active, len(ex.Findings))
+					ex.mu.Unlock()
+				}
+			}
+		}()
+	}
 	errs := make(chan error, cfg.Workers)
 	for i := 0; i < cfg.Workers; i++ {
 		wg.Add(1)
